@@ -117,6 +117,22 @@ CHECKS["C16"] = {
     "level_note": "requests sent by a non-fast remote while it knows it is choked are expected to be dropped silently",
 }
 
+CHECKS["C10"] = {
+    "level": "exploration",
+    "engine": "E3 swarm",
+    "rule": ("(a) exhaustive: every ordering of 1..5 events from {request A (prio 1, waiting), request B (prio 0, waiting), withdraw A, piece verified, piece fails verification, piece evicted} on one piece, each strictly ordered (cut after every event) and with consumer/completion event pairs issued simultaneously from two goroutines; "
+             "(b) random histories on several pieces with direct callers of Torrent.Request at priorities -1..3, real tor.Readers (open/read/cancel/close, positioned in first, middle, last piece), completions, failed verifications, evictions, SetConf, idle prefetch on/off. After every step the reference model (multiset of priorities + open waiters) is compared with Torrent.requested and with the state of every wait channel. "
+             "Distinct = group of orderings / class vector; non-trivial (random) = at least one waiter, one withdrawal and one completion."),
+    "assumptions": E3_ASSUME + ["while real Readers are open their registrations are only bounded (current piece .. end of range), exact equality with the model is demanded whenever no reader is open"],
+    "min": {"distinct_nontrivial": {"quick": 100, "thorough": 100}, "counters": {"model_cuts": 10000, "waiters_woken_as_expected": 1000, "exhaustive_orderings": 15000}},
+    "exhaustive_note": "part (a) enumerates all 9330 orderings of length 1..5 over the 6-event alphabet, x2 variants",
+    "parts": [{"name": "requests", "pkg": "c10_requests", "race": False, "shards": 16},
+              {"name": "requests-race", "pkg": "c10_requests", "race": True, "shards": 16, "env": {"VERIF_RACE_SUBSET": "1"}}],
+    "technique": "runtime monitor: reference model (priority multiset + wake-up register) stepped next to the real torrent loop, compared by reflect and by probing every wait channel at quiescent cuts; small event orderings enumerated exhaustively",
+    "level_text": "All orderings of up to five request/withdraw/complete/fail/evict events on a piece and random multi-consumer histories with real Readers are executed against the real event loop in virtual time; stored priorities and every wait channel are compared with a reference model at each quiescent cut. Held on the executions observed.",
+    "level_note": "a double close of a wait channel is observed as a crash of the child",
+}
+
 MANIFEST_META = {
     "hook_commits": ["db0b83b", "f0ff4d9", "d998a9e"],
     "pending_reason": {},
